@@ -173,7 +173,7 @@ Lemma bound_refuted_lemma : exists c evs,
   forallb (fun s => (tracked s <? c_max c)%N)
           (firstn 4 (trace_from no_fixes c init_st evs)) = true.
 Proof.
-  exists {| c_min := 1; c_max := 1; c_errkill := 3 |}, (burst 2). vm_compute. auto.
+  exists {| c_min := 1; c_max := 1; c_errkill := 3; c_warm := 0 |}, (burst 2). vm_compute. auto.
 Qed.
 
 
@@ -232,7 +232,7 @@ Lemma bound_refuted_burst_lemma : forall c k,
   (0 < c_max c)%N ->
   tracked (run no_fixes c (burst k)) = N.of_nat k.
 Proof.
-  intros c k M. unfold run, burst, run_from. rewrite fold_left_app.
+  intros c k M. unfold run, burst, burst_keys, run_from. rewrite fold_left_app.
   fold (run_from no_fixes c init_st (flat_map (fun i => [EForkReq; EForking i]) (seq 1 k))).
   set (s1 := run_from no_fixes c init_st (flat_map (fun i => [EForkReq; EForking i]) (seq 1 k))).
   assert (W : s_workers s1 = []).
@@ -461,7 +461,7 @@ Lemma errors_request_kill_refuted_lemma : exists c evs,
   (exists i, wfind 1 (s_workers (run no_fixes c evs)) = Some i /\
              w_delivered i = 3%N /\ w_errs i = 1%N /\ w_killreq i = false).
 Proof.
-  exists {| c_min := 1; c_max := 2; c_errkill := 1 |},
+  exists {| c_min := 1; c_max := 2; c_errkill := 1; c_warm := 0 |},
          [EForkReq; EForking 1; ESetIns 1; EErr 1 true; EErr 1 true; EErr 1 true].
   vm_compute. split; [reflexivity|]. split; [reflexivity|]. eexists. repeat split.
 Qed.
@@ -586,6 +586,219 @@ Proof.
   - cbn. split; [rewrite O; apply orb_true_r|reflexivity].
 Qed.
 
+
+(* ------------------------------------------------------------ the normalizer *)
+
+Lemma norm_target_le_max : forall c, (norm_target c <= c_max c)%N.
+Proof. intros. unfold norm_target. lia. Qed.
+
+Lemma normalize_requests_free_slots_lemma : forall c s,
+  round_ok c (tracked s) (requests c s ENormalize) = true /\
+  round_within_max c (tracked s) (requests c s ENormalize) = true.
+Proof.
+  intros. unfold round_ok, round_within_max, requests, norm_forks, listing.
+  pose proof (norm_target_le_max c). split; apply N.leb_le; lia.
+Qed.
+
+(* errors, mirror changes and cache expiry leave the number of tracked workers,
+   hence the listing and the forks a round requests, as they were *)
+Lemma status_event_keeps_len : forall fx c s e,
+  status_event e = true ->
+  length (s_workers (fst (step fx c s e))) = length (s_workers s).
+Proof.
+  intros fx c s e H. unfold step. destruct (gate fx c s e); cbn; [|reflexivity].
+  destruct e; cbn in H; try discriminate; cbn; try reflexivity.
+  - destruct counted; [|reflexivity]. destruct (wfind k (s_workers s)) eqn:W; [|reflexivity].
+    destruct (fx_err_multi fx || negb (s_errworker s)).
+    + destruct (c_errkill c <? w_errs w + 1)%N; cbn; eapply wset_len_found; eauto.
+    + cbn. eapply wset_len_found; eauto.
+  - apply on_worker_len.
+  - apply on_worker_len.
+  - apply on_worker_len.
+Qed.
+
+Lemma normalize_counts_errored_workers_lemma : forall fx c s e,
+  status_event e = true ->
+  listing (fst (step fx c s e)) = listing s /\
+  norm_forks c (fst (step fx c s e)) = norm_forks c s.
+Proof.
+  intros fx c s e H. unfold norm_forks, listing, tracked.
+  rewrite (status_event_keeps_len fx c s e H). split; reflexivity.
+Qed.
+
+(* tracked + in flight grows only by started forks *)
+Definition is_forking (e : event) : nat := match e with EForking _ => 1 | _ => 0 end.
+
+Lemma forkings_cons : forall e r, forkings (e :: r) = is_forking e + forkings r.
+Proof. intros. unfold forkings. cbn. destruct e; reflexivity. Qed.
+
+Definition Rinv (n : nat) (s : st) : Prop :=
+  length (s_workers s) + length (s_inflight s) <= n.
+
+Lemma Rinv_on_worker : forall n s k f, Rinv n s -> Rinv n (on_worker s k f).
+Proof.
+  intros n s k f H. unfold Rinv in *.
+  destruct (on_worker_rest s k f) as (E1 & _). rewrite on_worker_len, E1. exact H.
+Qed.
+
+Lemma Rinv_step : forall fx c s e n,
+  Rinv n s -> s_foreign (fst (step fx c s e)) = false ->
+  Rinv (n + is_forking e) (fst (step fx c s e)).
+Proof.
+  intros fx c s e n H. unfold step. destruct (gate fx c s e) eqn:G; cbn;
+    [|intros _; unfold Rinv in *; lia].
+  destruct e; cbn; intros F; try (unfold Rinv in *; cbn; lia).
+  - (* ESetIns *)
+    apply orb_false_iff in F. destruct F as [_ F]. apply negb_false_iff in F.
+    unfold Rinv in *; cbn.
+    destruct (wfind k (s_workers s)) eqn:W.
+    + erewrite wset_len_found by eauto. pose proof (rem_len_le k (s_inflight s)). lia.
+    + rewrite orb_false_r in F. rewrite wset_len_none by auto.
+      pose proof (rem_len_has k (s_inflight s) F). lia.
+  - (* ESetDel *) unfold Rinv in *; cbn. pose proof (wdel_len_le k (s_workers s)). lia.
+  - (* EForkFail *) unfold Rinv in *; cbn. pose proof (rem_len_le k (s_inflight s)). lia.
+  - (* ERekey *)
+    destruct (wfind b (s_workers s)) eqn:W; [|unfold Rinv in *; lia].
+    unfold Rinv in *; cbn.
+    pose proof (wdel_len_found b (s_workers s) _ W).
+    pose proof (wset_len_le a (rekeyed w) (wdel b (s_workers s))). lia.
+  - (* EKilled *) unfold Rinv in *; cbn. pose proof (wdel_len_le k (s_workers s)). lia.
+  - (* EErr *)
+    destruct counted; [|unfold Rinv in *; cbn; lia].
+    destruct (wfind k (s_workers s)) eqn:W; [|unfold Rinv in *; cbn; lia].
+    destruct (fx_err_multi fx || negb (s_errworker s)).
+    + destruct (c_errkill c <? w_errs w + 1)%N; unfold Rinv in *; cbn;
+        erewrite wset_len_found by eauto; lia.
+    + unfold Rinv in *; cbn. erewrite wset_len_found by eauto. lia.
+  - rewrite Nat.add_0_r. apply Rinv_on_worker. exact H.
+  - rewrite Nat.add_0_r. apply Rinv_on_worker. exact H.
+  - rewrite Nat.add_0_r. apply Rinv_on_worker. exact H.
+Qed.
+
+Lemma Rinv_run : forall fx c r s n,
+  Rinv n s -> s_foreign (run_from fx c s r) = false ->
+  Rinv (n + forkings r) (run_from fx c s r).
+Proof.
+  induction r as [|e r IH]; intros s n H F.
+  - unfold forkings. cbn. rewrite Nat.add_0_r. exact H.
+  - change (run_from fx c s (e :: r)) with (run_from fx c (fst (step fx c s e)) r) in *.
+    rewrite forkings_cons. rewrite Nat.add_assoc. apply IH; [|exact F].
+    apply Rinv_step; [exact H|]. eapply foreign_mono_run; eauto.
+Qed.
+
+Lemma normalize_round_within_max_lemma : forall fx c evs r,
+  let s := run fx c evs in
+  s_inflight s = [] ->
+  (N.of_nat (forkings r) <= norm_forks c s)%N ->
+  s_foreign (run_from fx c s r) = false ->
+  (tracked (run_from fx c s r) <= N.max (c_max c) (tracked s))%N.
+Proof.
+  intros fx c evs r s I L F.
+  assert (H0 : Rinv (length (s_workers s)) s) by (unfold Rinv; rewrite I; cbn; lia).
+  pose proof (Rinv_run fx c r s _ H0 F) as H. unfold Rinv in H.
+  pose proof (norm_target_le_max c).
+  unfold norm_forks, listing, tracked in *. lia.
+Qed.
+
+(* the hypothesis "no fork in flight" is needed: this is the known finding *)
+Lemma normalize_round_inflight_refuted_lemma : exists c evs r,
+  let s := run no_fixes c evs in
+  s_inflight s <> [] /\
+  (N.of_nat (forkings r) <= norm_forks c s)%N /\
+  s_foreign (run_from no_fixes c s r) = false /\
+  bound_ok c (tracked s) = true /\
+  bound_ok c (tracked (run_from no_fixes c s r)) = false.
+Proof.
+  exists {| c_min := 1; c_max := 1; c_errkill := 3; c_warm := 0 |},
+         [ENormalize; EForkReq; EForking 1],
+         [ENormalize; EForkReq; EForking 2; ESetIns 1; ESetIns 2].
+  vm_compute. repeat split; try reflexivity; try discriminate.
+Qed.
+
+(* a whole round on its own: the pool ends exactly at the target (or where it was) *)
+Lemma requests_keep_workers : forall fx c l s,
+  (l = [] \/ (tracked s <? c_max c)%N = true) ->
+  s_workers (run_from fx c s (flat_map (fun i => [EForkReq; EForking i]) l)) = s_workers s.
+Proof.
+  induction l as [|i r IH]; intros s H; [reflexivity|].
+  destruct H as [H|H]; [discriminate|].
+  cbn [flat_map app]. unfold run_from. cbn [fold_left].
+  fold (run_from fx c (fst (step fx c (fst (step fx c s EForkReq)) (EForking i)))
+                 (flat_map (fun i => [EForkReq; EForking i]) r)).
+  assert (E1 : fst (step fx c s EForkReq) = s).
+  { unfold step. cbn. rewrite H. reflexivity. }
+  rewrite E1.
+  assert (E2 : s_workers (fst (step fx c s (EForking i))) = s_workers s).
+  { unfold step. cbn. rewrite H. reflexivity. }
+  rewrite IH; [exact E2|]. right. unfold tracked in *. rewrite E2. exact H.
+Qed.
+
+Lemma firstn_In : forall (n : nat) (l : list nat) x, In x (firstn n l) -> In x l.
+Proof.
+  induction n as [|n IH]; intros l x H; [contradiction|].
+  destruct l as [|y l]; [contradiction|]. cbn in H. destruct H as [->|H]; [left; reflexivity|].
+  right. apply IH. exact H.
+Qed.
+
+Lemma firstn_NoDup : forall (n : nat) (l : list nat), NoDup l -> NoDup (firstn n l).
+Proof.
+  induction n as [|n IH]; intros l H; [constructor|].
+  destruct l as [|y l]; [constructor|]. inversion H as [|? ? Hn Hl]; subst. cbn. constructor.
+  - intro Hy. apply Hn. eapply firstn_In; eauto.
+  - apply IH. exact Hl.
+Qed.
+
+Lemma normalize_round_exact_lemma : forall c evs ks,
+  let s := run no_fixes c evs in
+  NoDup ks -> (forall k, In k ks -> wfind k (s_workers s) = None) ->
+  (norm_forks c s <= N.of_nat (length ks))%N ->
+  tracked (run_from no_fixes c s (norm_round c s ks)) = N.max (tracked s) (norm_target c).
+Proof.
+  intros c evs ks s ND FR LE.
+  set (n := N.to_nat (norm_forks c s)).
+  set (l := firstn n ks).
+  assert (Ll : length l = n).
+  { unfold l. apply firstn_length_le. unfold n. lia. }
+  assert (NDl : NoDup l).
+  { unfold l. apply firstn_NoDup. exact ND. }
+  assert (FRl : forall k, In k l -> wfind k (s_workers s) = None).
+  { intros k Hk. apply FR. unfold l in Hk. eapply firstn_In; eauto. }
+  unfold norm_round. fold n. fold l. unfold run_from. cbn [fold_left].
+  assert (E0 : fst (step no_fixes c s ENormalize) = s) by reflexivity.
+  rewrite E0. unfold burst_keys. rewrite fold_left_app.
+  fold (run_from no_fixes c s (flat_map (fun i => [EForkReq; EForking i]) l)).
+  set (s1 := run_from no_fixes c s (flat_map (fun i => [EForkReq; EForking i]) l)).
+  assert (W : s_workers s1 = s_workers s).
+  { apply requests_keep_workers. destruct l as [|x l'] eqn:El; [left; reflexivity|right].
+    apply N.ltb_lt. pose proof (norm_target_le_max c).
+    assert (0 < n) by (rewrite <- Ll; cbn; lia).
+    unfold n, norm_forks, listing in *. lia. }
+  fold (run_from no_fixes c s1 (map ESetIns l)).
+  unfold tracked. rewrite burst_inserts; [|exact NDl|intros k Hk; rewrite W; apply FRl; exact Hk].
+  rewrite W, Ll. unfold n, norm_forks, listing, tracked. lia.
+Qed.
+
+Lemma normalize_round_nonvacuous_lemma :
+  let up := [ENormalize; EForkReq; EForking 1; EForkReq; EForking 2; ESetIns 1; ESetIns 2;
+             ERekey 1 11; ERekey 2 12;
+             EErr 11 true; EErrClear; EErr 12 true; EErrClear] in
+  let c0 := {| c_min := 2; c_max := 3; c_errkill := 3; c_warm := 0 |} in
+  let c1 := {| c_min := 2; c_max := 3; c_errkill := 3; c_warm := 1 |} in
+  (* two tracked workers, each with one recent error below the limit: none is ready ... *)
+  tracked (run no_fixes c0 up) = 2%N /\ ready (run no_fixes c0 up) = 0%N /\
+  s_killlog (run no_fixes c0 up) = [] /\ s_inflight (run no_fixes c0 up) = [] /\
+  (* ... both are listed: Min=2 Warm=0 Max=3 requests nothing, Warm=1 requests the one free slot *)
+  listing (run no_fixes c0 up) = 2%N /\
+  requests c0 (run no_fixes c0 up) ENormalize = 0%N /\
+  requests c1 (run no_fixes c1 up) ENormalize = 1%N /\
+  tracked (run no_fixes c0 (up ++ norm_round c0 (run no_fixes c0 up) [3; 4; 5])) = 2%N /\
+  tracked (run no_fixes c1 (up ++ norm_round c1 (run no_fixes c1 up) [3; 4; 5])) = 3%N /\
+  (* a round that requested two forks here (it did not see the errored workers) ends above Max *)
+  round_ok c0 2 2 = false /\
+  tracked (run no_fixes c0 (up ++ ENormalize :: burst_keys [3; 4])) = 4%N /\
+  bound_ok c0 (tracked (run no_fixes c0 (up ++ ENormalize :: burst_keys [3; 4]))) = false.
+Proof. vm_compute. repeat split. Qed.
+
 (* ------------------------------------------------------------ state groups *)
 
 Definition groups_exclusive_lemma := C19Proofs.group_exclusive_reachable_lemma.
@@ -593,7 +806,7 @@ Definition groups_exclusive_lemma := C19Proofs.group_exclusive_reachable_lemma.
 (* ------------------------------------------------------------ non-vacuity *)
 
 Lemma poolready_nonvacuous_lemma :
-  let c := {| c_min := 2; c_max := 3; c_errkill := 1 |} in
+  let c := {| c_min := 2; c_max := 3; c_errkill := 1; c_warm := 0 |} in
   let up := [EForkReq; EForking 1; ESetIns 1; ERekey 1 11; EForkReq; EForking 2; ESetIns 2] in
   (* one ready worker of two tracked: the gate refuses *)
   step no_fixes c (run no_fixes c up) ETryReady = (run no_fixes c up, false) /\
